@@ -1519,7 +1519,7 @@ fn main() {
                 "body-contents",
                 total,
                 &format!(
-                    "every ordered forest of <= {max_nodes} nodes over {{text, caller variable, include (whose template makes a call with a body itself), loop; nested call with body, set block, filter section (also empty)}} as the body of one call ({}): rendered by name and through render_str, against the text the forest denotes",
+                    "every ordered forest of <= {max_nodes} nodes over {{text, caller variable, include (whose template makes a call with a body itself), loop, the counters of the loop the call sits in; nested call with body, set block, filter section (also empty)}} as the body of one call ({}): rendered by name and through render_str, against the text the forest denotes",
                     per_size.iter().enumerate().map(|(i, n)| format!("{} nodes: {n}", i + 1)).collect::<Vec<_>>().join(", ")
                 ),
             )
